@@ -12,6 +12,7 @@ META = {
         "(validators, conditions, before, exit, on, enter, after) and its injected event/source/target/"
         "state/current_state/model field. "
         "every callback also compares event_data.state/source/target/event with the injected parameters; 20% alternative declaration styles, 20% callbacks behind a signature-preserving decorator. "
+        "Inline functions named like the convention name of their own place, pairs of bound methods of two helper objects, return values that compare equal to everything. "
         "distinct_nontrivial = distinct (transition kind, populated-"
         "group bitmap, provider mix, multi-event, engine) combinations observed with >=2 populated groups."
     ),
